@@ -45,6 +45,10 @@ CHECKS['C17'] = dict(level='proof',
    text='Per-function facts that make \\Recent exactly-once and never stored are proved from the real source: \\Recent is never a permanent flag nor kept in a session flag set (PermanentFlags.__init__, SessionFlags.update/get/add_recent); SelectedSet.any_selected never returns a read-only selection; Message.copy never inherits a pending \\Recent; dict append never stores \\Recent and stores the recent bit it is given; dict claim_recent hands every stored-recent message to the claiming session and clears the bit in one atomic segment; BaseSession append/copy/move give add_recent only to a read-write selection and store a message recent exactly when no selection took it; select_mailbox claims only for read-write selections. A bounded run of delivery/select/examine/close histories on the real server is reported separately.',
    note='Exactly-once over whole histories is the composition of these facts (paper argument) plus the bounded run; the backend is abstract in the BaseSession contracts; atomicity of claim_recent rests on NoYieldUnderLock (C04); maildir not covered.',
    ref='6 C17')
+CHECKS['C13'] = dict(level='other',
+   text='Deductive: over a ghost denotation of criteria objects, SearchCriteriaSet.matches is proved to be the conjunction, OrSearchCriteria the disjunction and InverseSearchCriteria the complement of their parts, and ALL, the flag keys, NEW, SMALLER/LARGER and the sequence-set/UID-set key (with * the highest number of the right kind) are proved to test what RFC 3501 says. Bounded: every supported key and its negation plus seeded programs to depth 2 are run as SEARCH and UID SEARCH on the real server against an independent evaluator, including equivalent programs and views with hidden expunges.',
+   note='SearchCriteria.of dispatch, the SearchKey parser, the frozenset of top-level keys and every key that goes through email/re (header, envelope, text, sent date) are covered by the bounded run only.',
+   ref='6 C13')
 NOT_YET = {}
 def main():
     props = [json.loads(l) for l in open(os.path.join(HERE, 'properties.jsonl'))]
